@@ -341,7 +341,17 @@ impl Objects {
                         e["h"].as_str().unwrap_or(""),
                     )
                 };
-                let caps = || Regex::new("x").unwrap().capture_locations();
+                // capture locations as the runner would deliver them, from a
+                // regex with a NESTED group that ends before the enclosing one
+                // (the terminal writer re-assembles the step text from them)
+                let caps = || {
+                    let re = Regex::new(r"^((\S+) \S+) (\d+)").unwrap();
+                    let mut locs = re.capture_locations();
+                    if i >= 1 && i <= steps.len() {
+                        drop(re.captures_read(&mut locs, &steps[i - 1].value));
+                    }
+                    locs
+                };
                 let sev = |bg: bool, st, ev| {
                     if bg {
                         event::Scenario::Background(st, ev)
